@@ -184,6 +184,16 @@ manifest = {
          'extra engine, not tied to one property: spec/Telemetry.tla composes Calendar, ModeFile/ConsentOps, Approval and WorkerChart into the whole pipeline '
          '(Inc, Tick, SetMode, RunUploader, Merge, Chart) with EndToEnd / NothingInModeOff / LocalReportsComplete / MergeFaithful / ChartCounts checked exhaustively by TLC; '
          'simulate and witness behaviours are replayed through the real counter package, uploader, upload endpoint and worker (./vcheck E2E --tier quick|thorough, evidence/E2E.json)'},
+        {'name': 'x01-web-layer', 'path': 'vcheck X01', 'serves_properties': ['C12', 'C18'], 'kind_free_text':
+         'extension engine (specification grown beyond the listed properties): spec/WebContent*.tla, WebPipeline*.tla, WebRoutes*.tla — path resolution and confinement of the '
+         'content server, error mapping, the middleware chain as composition of outcome transformers (OrderMatters), routing/index choice of telemetrygodev; vectors replayed, '
+         'observations validated by TLC (spec/README-X01.md, evidence/X01.json)'},
+        {'name': 'x02-config-distribution', 'path': 'vcheck X02', 'serves_properties': ['C01', 'C17'], 'kind_free_text':
+         'extension engine: spec/ConfigDist*.tla — chart config -> generated upload config -> lookups (acceptance, version window, validation, still-valid test), '
+         'configstore.Download as a state machine over a file proxy, unionfs; replayed through Parse/generate/NewConfig and real `go mod download` (spec/README-X02.md, evidence/X02.json)'},
+        {'name': 'x03-counter-api', 'path': 'vcheck X03', 'serves_properties': ['C03', 'C15'], 'kind_free_text':
+         'extension engine: spec/CtrApi*.tla — the public counter API above the mapped file: stack counters under every schedule (one Counter per stack, exactly-once), '
+         'Read/ReadStack/ReadFile, Open lifecycle, flag counters, countertest; witness schedules replayed on the instrumented code, histories in fresh child processes (spec/README-X03.md, evidence/X03.json)'},
     ],
     'checks': checks,
     'not_applicable': na,
